@@ -16,6 +16,11 @@
 #include <fcppt/container/bitfield/is_subset_eq.hpp>
 #include <fcppt/container/bitfield/object.hpp>
 #include <fcppt/container/bitfield/operators.hpp>
+#include <fcppt/container/bitfield/output.hpp>
+#include <fcppt/container/bitfield/underlying_value.hpp>
+#include <fcppt/enum/array.hpp>
+#include <fcppt/enum/array_init.hpp>
+#include <fcppt/enum/to_string_impl_fwd.hpp>
 #include <fcppt/container/bitfield/std_hash.hpp>
 #include <fcppt/enum/size.hpp>
 
@@ -23,7 +28,9 @@
 #include <functional>
 #include <limits>
 #include <memory>
+#include <sstream>
 #include <string>
+#include <string_view>
 #include <utility>
 #include <vector>
 
@@ -39,6 +46,33 @@ enum class e17
   fcppt_maximum = v16
 };
 
+// the enumerator names printed by operator<< : "v0", "v1", ...
+inline std::string_view enum_name(unsigned const i)
+{
+  static char const *const names[] = {"v0", "v1", "v2", "v3", "v4", "v5", "v6", "v7", "v8",
+                                      "v9", "v10", "v11", "v12", "v13", "v14", "v15", "v16"};
+  return names[i];
+}
+}
+
+namespace fcppt::enum_
+{
+#define VERIF_NAMES(E)                                                                         \
+  template <>                                                                                  \
+  struct to_string_impl<E>                                                                     \
+  {                                                                                            \
+    static std::string_view get(E const e) { return enum_name(static_cast<unsigned>(e)); }      \
+  };
+VERIF_NAMES(e1)
+VERIF_NAMES(e3)
+VERIF_NAMES(e8)
+VERIF_NAMES(e9)
+VERIF_NAMES(e17)
+#undef VERIF_NAMES
+}
+
+namespace
+{
 using mask_t = std::uint32_t; // the generator's description of a subset (n <= 17)
 
 // ---- expression trees over the operators (generator side: shape only) ----
@@ -257,6 +291,15 @@ struct driver
       std::vector<unsigned> rev(all.rbegin(), all.rend());
       emit("ilist", rev, [] { return all_of(std::make_integer_sequence<unsigned, N>{}, true); });
     }
+    // a bitfield is "like a std::map<Enum,bool>": initialise it from an enum_::array<E,bool>
+    {
+      fcppt::enum_::array<E, bool> flags(
+          fcppt::enum_::array_init<fcppt::enum_::array<E, bool>>([](E const e) { return static_cast<unsigned>(e) % 2U == 0U; }));
+      std::vector<unsigned> s;
+      for (unsigned i = 0; i < N; ++i)
+        if (flags[en(i)]) s.push_back(i);
+      emit("enum_array", s, [&flags] { return fcppt::container::bitfield::init<bf>([&flags](E const e) { return flags[e]; }); });
+    }
     // copy construction, copy assignment, construction from the internal array - of values that
     // were themselves produced in the six ways
     mask_t const full = (mask_t{1} << N) - 1U;
@@ -344,6 +387,145 @@ struct driver
     vj::end_call(r);
   }
 
+  // ---- operator[] proxies: assignment through operator[] from another proxy, chains ----
+  static void proxy_record(unsigned p, mask_t ma, mask_t mb, unsigned i, unsigned j)
+  {
+    vj::J pre;
+    pre.kv("f", "proxy").kv("n", N).kv("w", W).kv("p", prov_name[p]).kv("i", i).kv("j", j);
+    vj::begin_call(pre.s);
+    bf const a(make(p, ma));
+    bf const b(make((p + 1) % num_prov, mb));
+    std::string r = ",\"a\":" + elems(a) + ",\"b\":" + elems(b);
+    { bf c(a); c[en(i)] = c[en(j)]; r += ",\"cp\":" + obs(c); }
+    { bf c(a); c[en(i)] = c[en(j)] = true; r += ",\"ch1\":" + obs(c); }
+    { bf c(a); c[en(i)] = c[en(j)] = false; r += ",\"ch0\":" + obs(c); }
+    {
+      // named proxies: p = q assigns q's bit to p's bit; p keeps referring to enumerator i
+      bf c(a);
+      typename bf::reference pr(c[en(i)]);
+      typename bf::reference qr(c[en(j)]);
+      pr = qr;
+      pr = false;
+      r += ",\"named\":" + obs(c);
+    }
+    {
+      bf c(a);
+      typename bf::reference pr(c[en(i)]);
+      typename bf::reference qr(c[en(j)]);
+      pr = std::move(qr);
+      r += ",\"mv\":" + obs(c);
+    }
+    {
+      bf c(a);
+      bf d(b);
+      c[en(i)] = d[en(j)];
+      r += ",\"cross\":" + obs(c) + ",\"crossb\":" + elems(d);
+    }
+    r += ",\"aa\":" + elems(a) + "}";
+    vj::end_call(r);
+  }
+
+  // ---- details of the proxy type and of returned references (observed only) ----
+  static void proxyx_record(unsigned p, mask_t ma, mask_t mb, unsigned i, unsigned j)
+  {
+    vj::J pre;
+    pre.kv("f", "proxyx").kv("n", N).kv("w", W).kv("p", prov_name[p]).kv("i", i).kv("j", j);
+    vj::begin_call(pre.s);
+    bf const a(make(p, ma));
+    bf const b(make((p + 1) % num_prov, mb));
+    std::string r = ",\"a\":" + elems(a) + ",\"b\":" + elems(b);
+    {
+      // a copy of a proxy refers to the same bit
+      bf c(a);
+      typename bf::reference pr(c[en(i)]);
+      typename bf::reference pc(pr);
+      pc = true;
+      r += ",\"cpy\":" + obs(c);
+      r += std::string(",\"cpyr\":") + (static_cast<bool>(pr) ? "1" : "0");
+    }
+    {
+      // const proxy -> bool, reference returned by operator=(bool)
+      bf c(a);
+      bf const &k = c;
+      typename bf::const_reference const kr(k[en(j)]);
+      r += std::string(",\"cc\":") + (static_cast<bool>(kr) ? "1" : "0");
+      typename bf::reference pr(c[en(i)]);
+      typename bf::reference &ret = (pr = true);
+      r += std::string(",\"rs\":") + ((&ret == &pr) ? "1" : "0");
+      typename bf::reference &ret2 = (ret = false);
+      r += std::string(",\"rs2\":") + ((&ret2 == &pr) ? "1" : "0");
+      r += ",\"rsv\":" + obs(c);
+    }
+    {
+      // rid: do the assigning operators return a reference to their left operand?
+      std::string rid = "[";
+      { bf c(a); bf &ref = (c |= b); rid += (&ref == &c) ? "1," : "0,"; }
+      { bf c(a); bf &ref = (c &= b); rid += (&ref == &c) ? "1," : "0,"; }
+      { bf c(a); bf &ref = (c ^= b); rid += (&ref == &c) ? "1," : "0,"; }
+      { bf c(a); bf &ref = (c |= en(i)); rid += (&ref == &c) ? "1]" : "0]"; }
+      r += ",\"rid\":" + rid;
+    }
+    r += ",\"aa\":" + elems(a) + "}";
+    vj::end_call(r);
+  }
+
+  // ---- operator<< (char and wchar_t), underlying_value / construction from the word ----
+  static std::string word_limbs(unsigned long long v)
+  {
+    return "[" + std::to_string(v & 0xFFFFU) + "," + std::to_string((v >> 16U) & 0xFFFFU) + "," +
+           std::to_string((v >> 32U) & 0xFFFFU) + "," + std::to_string((v >> 48U) & 0xFFFFU) + "]";
+  }
+  static void out_record(unsigned p, mask_t m)
+  {
+    vj::J pre;
+    pre.kv("f", "out").kv("n", N).kv("w", W).kv("p", prov_name[p]);
+    vj::begin_call(pre.s);
+    bf const a(make(p, m));
+    std::ostringstream os;
+    os << a;
+    std::wostringstream ws;
+    ws << a;
+    std::string r = ",\"a\":" + elems(a) + ",\"s\":" + vj::cps(os.str()) + ",\"ws\":" + vj::cps(ws.str());
+    r += std::string(",\"good\":") + ((os.good() && ws.good()) ? "1" : "0");
+    if constexpr (bf::array_size::value == 1U)
+    {
+      Wd const u = fcppt::container::bitfield::underlying_value(a);
+      r += ",\"uv\":" + word_limbs(static_cast<unsigned long long>(u));
+      // a bitfield constructed from that word, and one constructed from the word the generator
+      // describes (bit e of the word = enumerator e), which has no bit outside the enum
+      bf const back(typename bf::array_type{u});
+      r += ",\"uvb\":" + obs(back);
+      Wd const arg = static_cast<Wd>(m);
+      bf const from(typename bf::array_type{arg});
+      r += ",\"arg\":" + word_limbs(static_cast<unsigned long long>(arg)) + ",\"from\":" + obs(from);
+    }
+    else
+    {
+      r += ",\"uv\":[],\"uvb\":[],\"arg\":[],\"from\":[]";
+    }
+    r += "}";
+    vj::end_call(r);
+  }
+
+  // ---- all single-enumerator operations of one subset (17 enumerators, thorough: every subset) ----
+  static void bits_record(mask_t m)
+  {
+    vj::J pre;
+    pre.kv("f", "bits").kv("n", N).kv("w", W).kv("m", static_cast<long long>(m));
+    vj::begin_call(pre.s);
+    bf a(bf::null());
+    for (unsigned i = 0; i < N; ++i)
+      if ((m >> i) & 1U) a[en(i)] = true;
+    std::string r = ",\"a\":" + elems(a) + ",\"ai\":" + elems_index(a) + ",\"s1\":[";
+    for (unsigned e = 0; e < N; ++e) { bf c(a); c.set(en(e), true); r += (e ? "," : "") + elems(c); }
+    r += "],\"s0\":[";
+    for (unsigned e = 0; e < N; ++e) { bf c(a); c[en(e)] = false; r += (e ? "," : "") + elems(c); }
+    r += "],\"or1\":[";
+    for (unsigned e = 0; e < N; ++e) r += (e ? "," : "") + elems(a | en(e));
+    r += "],\"nt\":" + obs(~a) + "}";
+    vj::end_call(r);
+  }
+
   // ---- random expression trees ----
   static tp random_tree(vj::Rng &g, int depth)
   {
@@ -405,13 +587,14 @@ struct driver
   {
     std::string name;
     unsigned i = 0;
+    unsigned j = 0;
     bool b = false;
     std::vector<unsigned> s;
   };
   static std::string op_json(op const &o)
   {
     vj::J j;
-    j.kv("op", o.name).kv("i", o.i).kv("b", o.b).raw("s", vj::arr(o.s));
+    j.kv("op", o.name).kv("i", o.i).kv("j", o.j).kv("b", o.b).raw("s", vj::arr(o.s));
     return j.str();
   }
   static std::string state_json(bf const &x, bf const &y, bf const &rv)
@@ -440,6 +623,9 @@ struct driver
     if (n == "swap") { std::swap(x, y); return x; }
     if (n == "copy") { y = x; return x; }
     if (n == "null") { x = bf::null(); return x; }
+    if (n == "idxcopy") { x[en(o.i)] = x[en(o.j)]; return x; }
+    if (n == "idxcopy_y") { x[en(o.i)] = y[en(o.j)]; return x; }
+    if (n == "chain") { x[en(o.i)] = x[en(o.j)] = o.b; return x; }
     if (n == "init")
     {
       x = fcppt::container::bitfield::init<bf>([&o](E const e) {
@@ -453,7 +639,10 @@ struct driver
   }
   static void run_history(char const *src, std::vector<op> const &ops)
   {
-    std::string pre = head("hist") + ",\"src\":\"" + src + "\",\"ops\":[";
+    // histories that assign one operator[] proxy to another are a record kind of their own
+    bool proxy_ops = false;
+    for (op const &o : ops) proxy_ops = proxy_ops || o.name == "idxcopy" || o.name == "idxcopy_y" || o.name == "chain";
+    std::string pre = head(proxy_ops ? "histp" : "hist") + ",\"src\":\"" + src + "\",\"ops\":[";
     for (std::size_t k = 0; k < ops.size(); ++k) pre += (k ? "," : "") + op_json(ops[k]);
     pre += "]";
     vj::begin_call(pre);
@@ -471,17 +660,20 @@ struct driver
   {
     static char const *const names[] = {"set", "idx", "ore", "orae", "or", "and", "xor", "ora", "anda", "xora",
                                         "selfora", "selfanda", "selfxora", "not", "not", "not", "swap", "swap",
-                                        "copy", "null", "init", "set", "set"};
+                                        "copy", "null", "init", "set", "set", "idxcopy", "idxcopy_y", "chain"};
     op o;
     o.name = names[g.below(sizeof names / sizeof names[0])];
     o.i = static_cast<unsigned>(g.below(N));
+    o.j = static_cast<unsigned>(g.below(N));
     o.b = g.coin();
     if (o.name == "init") o.s = members(static_cast<mask_t>(g.next()) & ((mask_t{1} << N) - 1U), N);
     return o;
   }
 
   // ---- modes ----
-  static int record(std::uint64_t seed, std::string const &pairs_mode, long ntrees, long nhist)
+  static int record(
+      std::uint64_t seed, std::string const &pairs_mode, long ntrees, long nhist, long bits_stride, long lastword_stride,
+      bool deep)
   {
     vj::Rng g(seed * 7919ULL + N * 131ULL + static_cast<unsigned>(W));
     mask_t const full = (mask_t{1} << N) - 1U;
@@ -502,6 +694,58 @@ struct driver
       for (unsigned e = 0; e < N; ++e)
         for (unsigned p = 0; p < num_prov; ++p)
           if (N <= 8 || (m + e + p) % 3 == 0) elem_record(p, m, e);
+    // operator[] proxies
+    for (mask_t m : masks)
+      for (unsigned i = 0; i < N; ++i)
+      {
+        std::vector<unsigned> js;
+        if (N <= 3)
+          for (unsigned j = 0; j < N; ++j) js.push_back(j);
+        else if (deep)
+          js = {i, (i + 1U) % N, N - 1U, static_cast<unsigned>((m + i) % N)};
+        else
+          js = {(m % 2U == 0U) ? i : (i + 1U) % N, static_cast<unsigned>((m + i) % N)};
+        for (std::size_t k = 0; k < js.size(); ++k)
+        {
+          bool dup = false;
+          for (std::size_t q = 0; q < k; ++q) dup = dup || js[q] == js[k];
+          if (dup) continue;
+          mask_t const mb = static_cast<mask_t>((static_cast<std::uint64_t>(m) * 2654435761ULL + i * 40503ULL + js[k]) >> 5U) & full;
+          if (N <= 3)
+            for (unsigned p = 0; p < num_prov; ++p) proxy_record(p, m, mb, i, js[k]);
+          else
+            proxy_record(static_cast<unsigned>((m + i + js[k]) % num_prov), m, mb, i, js[k]);
+          if (k == 0 || N <= 3) proxyx_record(static_cast<unsigned>((m + i) % num_prov), m, mb, i, js[k]);
+        }
+      }
+    // operator<<, underlying_value, construction from the storage word
+    for (mask_t m : masks)
+    {
+      out_record(static_cast<unsigned>(m % num_prov), m);
+      out_record(2U, m);
+    }
+    // every single-enumerator operation of every bits_stride-th subset
+    if (bits_stride > 0)
+      for (mask_t m = 0; m <= full; m += static_cast<mask_t>(bits_stride))
+      {
+        bits_record(m);
+        if (m == full) break;
+      }
+    // multi-word bitfields: pairs of subsets that differ only in the last storage word
+    if (lastword_stride > 0 && bf::array_size::value > 1U)
+    {
+      unsigned const low = static_cast<unsigned>((bf::array_size::value - 1U) * static_cast<unsigned>(W)); // enumerators below the last word
+      unsigned const used = N - low;
+      unsigned long c = static_cast<unsigned long>(seed);
+      for (mask_t common = 0; common < (mask_t{1} << low); common += static_cast<mask_t>(lastword_stride))
+        for (mask_t l1 = 0; l1 < (mask_t{1} << used); ++l1)
+          for (mask_t l2 = 0; l2 < (mask_t{1} << used); ++l2, ++c)
+          {
+            unsigned const pa = static_cast<unsigned>(c % num_prov);
+            unsigned const pb = static_cast<unsigned>((c / num_prov) % num_prov);
+            pair_record(pa, make(pa, common | (l1 << low)), pb, make(pb, common | (l2 << low)));
+          }
+    }
     // the same subset produced in two ways: all 36 combinations
     for (mask_t m : masks)
     {
@@ -565,7 +809,13 @@ struct driver
     {
       std::vector<op> ops;
       unsigned const len = 1 + static_cast<unsigned>(g.below(40));
-      for (unsigned i = 0; i < len; ++i) ops.push_back(random_op(g));
+      for (unsigned i = 0; i < len; ++i)
+      {
+        op o(random_op(g));
+        // three of four histories stay within set/get/operators; the fourth may use proxy assignments
+        while (h % 4 != 3 && (o.name == "idxcopy" || o.name == "idxcopy_y" || o.name == "chain")) o = random_op(g);
+        ops.push_back(o);
+      }
       run_history("rnd", ops);
     }
     return 0;
@@ -582,10 +832,11 @@ struct driver
         op o;
         o.name = e->str("op");
         o.i = static_cast<unsigned>(e->num_or("i", 0));
+        o.j = static_cast<unsigned>(e->num_or("j", 0));
         o.b = e->has("b") && e->at("b").b;
         if (e->has("s"))
           for (long long v : e->nums("s")) o.s.push_back(static_cast<unsigned>(v));
-        if ((o.name == "set" || o.name == "idx" || o.name == "ore" || o.name == "orae") && o.i >= N)
+        if (o.i >= N || o.j >= N)
         {
           std::fprintf(stderr, "script names enumerator %u of an enum with %u\n", o.i, N);
           return 3;
@@ -608,6 +859,9 @@ struct c10_args
   std::string pairs = "0";
   long ntrees = 0;
   long nhist = 0;
+  long bits_stride = 0;
+  long lastword_stride = 0;
+  bool deep = false; // thorough: four partner enumerators per proxy record instead of two
 };
 
 namespace
@@ -617,7 +871,7 @@ int run_enum(int const w, c10_args const &a)
 {
   auto const go = [&a](auto d) {
     using D = decltype(d);
-    return a.replay ? D::replay(a.scripts.c_str()) : D::record(a.seed, a.pairs, a.ntrees, a.nhist);
+    return a.replay ? D::replay(a.scripts.c_str()) : D::record(a.seed, a.pairs, a.ntrees, a.nhist, a.bits_stride, a.lastword_stride, a.deep);
   };
   switch (w)
   {
